@@ -441,6 +441,67 @@ def report_sat(tr, o, out, prop_id):
 
 
 # --------------------------------------------------------------------------
+# isolated shapes: "no valid WIT type produces a slot pair the generator
+# cannot convert" -- each variant shape alone in a world, so that a helper
+# (union, include, runtime item) pulled in by ANOTHER shape cannot mask a
+# missing one; the generated C / C++ must at least be accepted by the compiler
+# --------------------------------------------------------------------------
+def isolated_shapes(out, tier):
+    base = os.path.join(WORK, "isolated")
+    shutil.rmtree(base, ignore_errors=True)
+    os.makedirs(base, exist_ok=True)
+    seen = set()
+    n = 0
+    for sh in probes.SHAPES + probes.C_ONLY_SHAPES:
+        if sh["id"] in seen:
+            continue
+        seen.add(sh["id"])
+        cases = ", ".join("%s(%s)" % (chr(ord("a") + i), c) for i, c in enumerate(sh["cases"]))
+        wit = os.path.join(base, "%s.wit" % sh["id"])
+        with open(wit, "w") as f:
+            f.write("package probe:p;\n\ninterface vr {\n  variant v { %s }\n  g: func(x: v) -> v;\n}\n\n"
+                    "world w {\n  import vr;\n  export vr;\n}\n" % cases)
+        for backend, compiler, flags in (("c", "gcc", ["-std=gnu11"]), ("cpp", "g++", ["-std=c++20", "-fpermissive"])):
+            # -fpermissive: pointer->int32 casts are exact on wasm32 but "lose precision" on the 64-bit host
+            d = os.path.join(base, "%s_%s" % (backend, sh["id"]))
+            os.makedirs(d, exist_ok=True)
+            rc, txt, dt = vlib.run_cmd([DRIVER_BIN, backend, wit, "w", d], timeout=120)
+            out.obligations += 1
+            n += 1
+            role = "C04/exprsmt/%s/isolated-shape/%s" % (backend, sh["id"])
+            if rc != 0:
+                path = vlib.write_replay("C04", "isolated_%s_%s_generator" % (backend, sh["id"]),
+                                         {"engine": "exprsmt", "property": "C04", "backend": backend, "shape": sh, "wit": open(wit).read(),
+                                          "generator_output": txt[-1500:]})
+                out.violations.append(vlib.Violation(role=role + "/generator-fails",
+                                                     what="%s generator fails on a world containing only variant { %s }: %s"
+                                                     % (backend, cases, " ".join(txt.strip().splitlines()[-2:])[:300]), replay=path))
+                continue
+            srcs = [os.path.join(d, f) for f in sorted(os.listdir(d)) if f.endswith(".c" if backend == "c" else ".cpp")]
+            if not srcs:
+                out.inconclusive.append("%s isolated shape %s: no source file generated" % (backend, sh["id"]))
+                continue
+            inc = ["-I", d]
+            if backend == "cpp":
+                inc += ["-I", os.path.join(vlib.REPO, "crates/cpp/helper-types"), "-I", os.path.join(vlib.REPO, "crates/cpp/test_headers")]
+            crc, ctxt, cdt = vlib.run_cmd([compiler, "-fsyntax-only", "-w"] + flags + inc + srcs, timeout=120)
+            out.solver_s += cdt
+            errors = [l for l in ctxt.splitlines() if " error" in l or "error:" in l]
+            if crc != 0 and errors:
+                path = vlib.write_replay("C04", "isolated_%s_%s_compile" % (backend, sh["id"]),
+                                         {"engine": "exprsmt", "property": "C04", "backend": backend, "shape": sh, "wit": open(wit).read(),
+                                          "compiler": compiler, "errors": errors[:10]})
+                out.violations.append(vlib.Violation(role=role + "/does-not-compile",
+                                                     what="%s bindings for a world containing only variant { %s } are rejected by %s: %s"
+                                                     % (backend, cases, compiler, errors[0][:300]), replay=path))
+            elif crc != 0:
+                out.inconclusive.append("%s isolated shape %s: %s exited %s without an error line" % (backend, sh["id"], compiler, crc))
+            else:
+                out.discharged += 1
+    out.extra["isolated_shape_compiles"] = n
+
+
+# --------------------------------------------------------------------------
 # C route
 # --------------------------------------------------------------------------
 def c_route(out, prop_id, tier, samples):
@@ -636,6 +697,8 @@ def run(prop_id, tier, seed):
     # ---- C route
     if gen_ok.get("c"):
         c_route(out, prop_id, tier, samples)
+    if prop_id == "C04B":
+        isolated_shapes(out, tier)
 
     # ---- Kani route: generated Rust export glue (lift-args / lower-results) on the compiled bindings
     if gen_ok.get("rust") and prop_id == "C14":
